@@ -444,6 +444,9 @@ type Clause struct {
 	Expr *SExpr
 	Line int
 	Name string // optional label: "ensures[name] expr"
+	Anchor string // assert: source text prefix of the statement the assertion is attached to
+	When   string // assert: before | after
+	Hit    bool
 	Views []string // optional: views (property ids) this clause belongs to; empty = all
 }
 
@@ -646,7 +649,32 @@ func ReadSpecFile(path, pkg string) (*SpecFile, error) {
 				return nil, fmt.Errorf("%s:%d: clause %s outside func", path, r.line, kw)
 			}
 			switch kw {
-			case "requires", "ensures", "ensures_on_panic", "assert":
+			case "assert":
+				// assert[label] before|after "statement text prefix" : expr
+				txt := strings.TrimSpace(r.text)
+				when := "before"
+				if strings.HasPrefix(txt, "after ") {
+					when, txt = "after", strings.TrimSpace(txt[6:])
+				} else if strings.HasPrefix(txt, "before ") {
+					txt = strings.TrimSpace(txt[7:])
+				}
+				if !strings.HasPrefix(txt, "\"") {
+					return nil, fmt.Errorf("%s:%d: assert needs an anchor: assert before \"stmt\" : expr", path, r.line)
+				}
+				q := strings.Index(txt[1:], "\"")
+				if q < 0 {
+					return nil, fmt.Errorf("%s:%d: unterminated anchor", path, r.line)
+				}
+				anchor := txt[1 : 1+q]
+				rest := strings.TrimSpace(txt[2+q:])
+				rest = strings.TrimSpace(strings.TrimPrefix(rest, ":"))
+				c, err := mk(rawClause{r.kw, rest, r.line})
+				if err != nil {
+					return nil, err
+				}
+				c.Anchor, c.When = anchor, when
+				curF.Asserts = append(curF.Asserts, c)
+			case "requires", "ensures", "ensures_on_panic":
 				c, err := mk(r)
 				if err != nil {
 					return nil, err
@@ -658,8 +686,6 @@ func ReadSpecFile(path, pkg string) (*SpecFile, error) {
 					curF.Ensures = append(curF.Ensures, c)
 				case "ensures_on_panic":
 					curF.EnsPanic = append(curF.EnsPanic, c)
-				case "assert":
-					curF.Asserts = append(curF.Asserts, c)
 				}
 			case "modifies":
 				curF.HasMod = true
